@@ -4,7 +4,7 @@ package main
 // supports, i.e. what is trusted about it.
 const subsetText = `   The supported subset (anything else makes the function "not translated", never guessed):
      statements   return e[, e] | x := e | x = e (a new let-binding; code after an if is duplicated into the branches
-                  that fall through, so assignments in branches are seen correctly) | a, b := f(..) | var x T [= e] |
+                  that fall through, so assignments in branches are seen correctly) | x op= e (as x = x op e) | a, b := f(..) | var x T [= e] |
                   if [init;] c {..} [else ..] | if x, ok := v.(valueInt|valueFloat); ok {..} [else ..] (a match on the
                   two Number constructors) | switch { case c: .. default: .. } without fallthrough | nested blocks.
                   An if whose condition is a constant expression keeps only the live branch (bits.UintSize == 32).
